@@ -565,6 +565,8 @@ def c16(ctx):
         F.r_ro_flow(ctx, prog, [5])
         F.r_init_order(ctx, prog, [5])
         F.r_2d_divisible(ctx, prog)
+        # "released without leak at any point": local allocations of the decoders the 2D codec runs on
+        O.r_own_local(ctx, prog, ['of_it_decoding.c', 'of_ml_decoding.c', 'of_ml_tool.c', 'of_2d_parity_api.c', 'of_create_pchk.c'])
         F.r_2d_radix(ctx, prog)
         SB.r_siblings(ctx, prog, ['lb-api'])
         O.r_own_field(ctx, prog, [5], helpers=False)
